@@ -936,7 +936,9 @@ class Skel:
             finally:
                 env["in_loop"] -= 1
             orelse = self.block(s.orelse, env)
-            return ("Loop", _ascii("while " + ast.unparse(s.test)), self.seq(cond + [body]), self.seq(cond + [orelse]))
+            # 5th component (not printed): the condition part of the body, for harness/skelconf.py
+            return ("Loop", _ascii("while " + ast.unparse(s.test)), self.seq(cond + [body]), self.seq(cond + [orelse]),
+                    self.seq(cond))
         if isinstance(s, ast.Try):
             if s.orelse:
                 raise Unsupported("skeleton: try/else at line %d" % s.lineno)
